@@ -77,8 +77,10 @@ ASSUMPTIONS = list(c12.ASSUMPTIONS) + [
 EXHAUSTIVE = {"quick": False, "thorough": False}
 
 LOSS_KINDS = ["ode", "statio", "nonstatio", "sys_ode", "sys_statio", "sys_nonstatio"]
-GEN_KINDS = ["gen_ode", "gen_statio1", "gen_statio2", "gen_nonstatio", "gen_nonstatio_cart", "gen_obs", "gen_param",
-             "gen_multi"]
+GEN_KINDS = ["gen_ode", "gen_statio1", "gen_statio2", "gen_nonstatio", "gen_nonstatio_cart", "gen_nonstatio_cart1",
+             "gen_obs", "gen_param", "gen_multi"]
+# (interior, border, time) batch sizes that differ widely, in both directions
+WIDE_SIZES = [(4, 4, 16), (32, 2, 2), (2, 8, 8), (16, 1, 4), (4, 16, 2), (2, 2, 32)]
 
 
 # ------------------------------------------------------------------------------------------------
@@ -226,6 +228,14 @@ def gen_cases(rng, tier):
             b = rng.choice([1, 2])
             c = dict(kind=kind, n=n, b=b, history=_history(rng, 3, ["eager", "jit"], 8 if quick else 14))
             add(c)
+    # cursors with widely different batch sizes: the first draw of a FRESH generator (call 0; call 2 is an
+    # independently built fresh one) eager vs jit, then later draws (call 1 = the successor)
+    for kind in ("gen_statio2", "gen_nonstatio_cart", "gen_nonstatio_cart1"):
+        sizes = WIDE_SIZES if not quick else rng.sample(WIDE_SIZES[:2], 2) + rng.sample(WIDE_SIZES[2:], 1)
+        for bo, bb, bt in sizes:
+            c = dict(kind=kind, n=32, b=1, bo=bo, bb=bb, bt=bt,
+                     history=_history(rng, 3, ["eager", "jit"], 7 if quick else 12))
+            add(c)
     return cases
 
 
@@ -314,6 +324,8 @@ def make_generator(case, variant=0):
                                             DataGeneratorParameter)
 
     kind, n, b = case["kind"], case["n"], case["b"]
+    # batch sizes of the interior, border and time cursors (they may differ widely, in both directions)
+    bo, bb, bt = case.get("bo", b), case.get("bb", b), case.get("bt", b)
     key = jax.random.PRNGKey((case["seed"] + 17 * variant) % (1 << 30))
     sh = float(variant)
     if kind == "gen_ode":
@@ -322,15 +334,19 @@ def make_generator(case, variant=0):
         return CubicMeshPDEStatio(key=key, n=n, nb=2, omega_batch_size=b, omega_border_batch_size=1, dim=1,
                                   min_pts=(0.0,), max_pts=(1.0,))
     if kind == "gen_statio2":
-        return CubicMeshPDEStatio(key=key, n=n, nb=4 * n, omega_batch_size=b, omega_border_batch_size=b, dim=2,
+        return CubicMeshPDEStatio(key=key, n=n, nb=4 * n, omega_batch_size=bo, omega_border_batch_size=bb, dim=2,
                                   min_pts=(0.0, -1.0), max_pts=(1.0, 1.0))
     if kind == "gen_nonstatio":
         return CubicMeshPDENonStatio(key=key, n=n, nb=4 * n, nt=n, omega_batch_size=b, omega_border_batch_size=b,
                                      temporal_batch_size=b, dim=2, min_pts=(0.0, -1.0), max_pts=(1.0, 1.0), tmin=0.0,
                                      tmax=2.0, cartesian_product=False)
     if kind == "gen_nonstatio_cart":
-        return CubicMeshPDENonStatio(key=key, n=n, nb=4 * n, nt=n, omega_batch_size=b, omega_border_batch_size=b,
-                                     temporal_batch_size=b, dim=2, min_pts=(0.0, -1.0), max_pts=(1.0, 1.0), tmin=0.0,
+        return CubicMeshPDENonStatio(key=key, n=n, nb=4 * n, nt=n, omega_batch_size=bo, omega_border_batch_size=bb,
+                                     temporal_batch_size=bt, dim=2, min_pts=(0.0, -1.0), max_pts=(1.0, 1.0), tmin=0.0,
+                                     tmax=2.0, cartesian_product=True)
+    if kind == "gen_nonstatio_cart1":
+        return CubicMeshPDENonStatio(key=key, n=n, nb=2, nt=n, omega_batch_size=bo, omega_border_batch_size=1,
+                                     temporal_batch_size=bt, dim=1, min_pts=(0.0,), max_pts=(1.0,), tmin=0.0,
                                      tmax=2.0, cartesian_product=True)
     pin = jnp.arange(float(n))[:, None] * 2.0 + 1.0 + sh
     val = jnp.arange(float(2 * n)).reshape(n, 2) - 3.0 + sh
@@ -347,6 +363,18 @@ def make_generator(case, variant=0):
 
 
 def run_gen(case):
+    """batch drawing needs no exact arithmetic: these cases run in the library's default precision (x64 off), where
+    the cursors are int32 also under jit; results are compared bit for bit"""
+    import jax
+
+    jax.config.update("jax_enable_x64", False)
+    try:
+        return _run_gen(case)
+    finally:
+        jax.config.update("jax_enable_x64", True)
+
+
+def _run_gen(case):
     import jax
     from harness import core
 
@@ -428,6 +456,11 @@ def nontrivial(case, obs):
 
 def tags(case, obs):
     out = [f"kind={case['kind']}", f"history_len={len(case['history'])}"]
+    if "bt" in case:
+        out.append("batch_sizes=" + ("time>>omega" if case["bt"] > case["bo"] + 1 else
+                                     "omega>>time" if case["bo"] > case["bt"] + 1 else "close"))
+        out.append("border_vs_omega=" + ("border>omega" if case["bb"] > case["bo"] else
+                                         "border<omega" if case["bb"] < case["bo"] else "equal"))
     for m in sorted({m for _, m in case["history"]}):
         out.append(f"mode={m}")
     if case["kind"] in LOSS_KINDS:
